@@ -7,7 +7,7 @@ seeds=${*:-$(ls -d seeded/C*/ | tr -d '\n' | sed 's#/seeded# seeded#g')}
 for d in $seeds; do
   d=${d%/}
   echo "== $d"
-  tools/try_seed.sh $d/patch.diff $tier | tee $d/checks-$tier.txt
+  tools/try_seed.sh /verif/$d/patch.diff $tier | tee $d/checks-$tier.txt
 done
 # leave the harness builds matching the unchanged tree
 ./check --setup >/dev/null 2>&1
